@@ -583,7 +583,15 @@ func (s *Session) hostInfoFromMap(row map[string]interface{}, host *HostInfo) (*
 		// Not sure what the port field will be called until the JIRA issue is complete
 	}
 
-	ip, port := s.cfg.translateAddressPort(host.ConnectAddress(), host.port)
+	// a row without any usable address (possible for peers during gossip
+	// problems) is reported as an error by the callers or skipped as an
+	// invalid peer; do not panic in HostInfo.ConnectAddress here
+	addr, _ := host.connectAddressLocked()
+	if !validIpAddr(addr) {
+		return host, nil
+	}
+
+	ip, port := s.cfg.translateAddressPort(addr, host.port)
 	host.connectAddress = ip
 	host.port = port
 
@@ -604,6 +612,9 @@ func (s *Session) hostInfoFromIter(iter *Iter, connectAddress net.IP, defaultPor
 	host, err := s.hostInfoFromMap(rows[0], &HostInfo{connectAddress: connectAddress, port: defaultPort})
 	if err != nil {
 		return nil, err
+	}
+	if addr, _ := host.connectAddressLocked(); !validIpAddr(addr) {
+		return nil, fmt.Errorf("no valid connect address for host: %v", host)
 	}
 	return host, nil
 }
@@ -670,6 +681,9 @@ func (r *ringDescriber) getClusterPeerInfo(localHost *HostInfo) ([]*HostInfo, er
 
 // Return true if the host is a valid peer
 func isValidPeer(host *HostInfo) bool {
+	if addr, _ := host.connectAddressLocked(); !validIpAddr(addr) {
+		return false
+	}
 	return !(len(host.RPCAddress()) == 0 ||
 		host.hostId == "" ||
 		host.dataCenter == "" ||
